@@ -64,6 +64,14 @@ OS_CALLS: list[str] = []
 class FakeServiceInfo:
     def __init__(self, type_, name, server=None):
         self.type, self.name, self.server = type_, name, server
+        label = name.split(".")[0]
+        if len(label) > 63 or not label:
+            # like zeroconf's ServiceInfo: a name DNS cannot carry is refused when the request is BUILT (the attempt is logged
+            # like any other lookup: it fails)
+            from zeroconf import BadTypeInNameException
+            JOINT.append("mdns:" + label.encode().hex())
+            MDNS_CALLS.append((label, name, server, type_))
+            raise BadTypeInNameException(f"Bad type in service name '{name[:20]}…'")
 
     async def async_request(self, zc, timeout):
         label = self.name.split(".")[0]
@@ -115,7 +123,7 @@ class Patched:
 
 HOST_FORMS = ["10.0.0.5", "192.168.1.255", "fe80::1", "fe80::1%3", "fe80::2%eth0", "::1", "2001:db8::7", "fd00::1:2%2", "ff02::fb%5",
               "kitchen", "attic", "kitchen.local", "garage.local.", "x.local", "host.example.com", "sub.host.example.org.",
-              "local", "kitchen.localx", "1234", "a.b.local", "kitchen.LOCAL"]
+              "local", "kitchen.localx", "1234", "a.b.local", "kitchen.LOCAL", "a" * 64, "b" * 70 + ".local"]
 
 
 def is_ip(h):
@@ -146,6 +154,8 @@ def run_resolve(hosts, mdns_spec, os_spec):
     for i, h in enumerate(hosts):
         label = h.partition(".")[0]
         ms, osx = mdns_spec[i], os_spec[i]
+        if len(label) > 63 or not label:
+            ms = "e"    # a label DNS cannot carry: zeroconf refuses to build the request, the lookup can only fail
         if label not in MDNS:   # the oracle is a function of the name: first occurrence wins (as in the driver)
             if ms == "e":
                 MDNS[label] = "e"
@@ -188,6 +198,9 @@ def run_resolve(hosts, mdns_spec, os_spec):
         res = None
     except APIConnectionError:
         line = "err:os"
+        res = None
+    except Exception as e:  # noqa: BLE001 — anything else is not a resolution error of the library
+        line = "raw:" + type(e).__name__
         res = None
     calls = []
     mi = oi = 0
@@ -248,13 +261,15 @@ def run(ck: Check):
             lines.append("rs.resolve " + " ".join(toks))
             impl.append(line + " calls [" + " ".join(JOINT) + "]")
             metas.append(("resolve", hosts, ms, osx))
-            dist["ok" if line.startswith("ok") else line.replace(":", "_")] += 1
+            dist["ok" if line.startswith("ok") else (line.replace(":", "_") if line.startswith("err") else "err_none")] += 1
             # ---- spec on the implementation --------------------------------------------------------------
             why = None
             if supplied in CLOSE_LOG:
                 why = "a zeroconf instance supplied by the application was closed by a lookup"
             if res is not None and len(res) == 0:
                 why = "an empty result was returned instead of an error"
+            if line.startswith("raw:"):
+                why = f"raw exception {line[4:]} escaped from async_resolve_host (a lookup that cannot be made is a failed lookup: the OS resolver is next, the error a resolve error)"
             # the lookups the property prescribes, host by host, written from its text
             exp_calls, aborted = [], False
             for i, h in enumerate(hosts):
